@@ -63,6 +63,9 @@ func enter(name string, ctx context.Context, hasCtx bool, args ...types.MalType)
 		panic(Sentinel)
 	case "panic-val":
 		panic("verif-panic-value")
+	case "panic-runtime":
+		var m map[string]int
+		m["boom"] = 1 // a runtime.Error
 	}
 }
 
